@@ -79,8 +79,16 @@ def nontrivial(pid, ex):
     return False
 
 
+def is_table_segment(path):
+    rows = V.read_ndjson(path)
+    return any("shape" in r for r in rows[:3])
+
+
 def run(pid, tier, replay=None):
     t0 = time.time()
+    if pid == "C08" and replay and is_table_segment(replay):
+        from checks import tables as T
+        return T.run("C08", tier, replay=replay)
     wd = V.workdir(pid)
     V.copy_spec("forwarder", wd)
     thorough = tier == "thorough"
@@ -149,6 +157,21 @@ def run(pid, tier, replay=None):
             break
     for th in threads:
         th.join()
+    # ---- 3b. C08 also owns the FIB/RIB structures: "hold nothing beyond what their live entries require"
+    tbl = None
+    if pid == "C08" and not replay:
+        from checks import tables as T
+        wd2 = os.path.join(wd, "tables")
+        os.makedirs(wd2)
+        shutil_copy = __import__("shutil").copy
+        tbl = T.stage("C08", tier, wd2, binary)
+        for v in tbl["viols"]:
+            v["segment"] = v["segment"]
+        viols += tbl["viols"]
+        accepted += tbl["accepted"]
+        events += tbl["events"]
+        for k, x in tbl["mc"].items():
+            mc["tables-" + k] = x
 
     # ---- 4. verdict
     states = sum(x.distinct for x in mc.values())
